@@ -60,8 +60,8 @@ struct SIMDVector<int64_t,simd_abi::avx512> {
         _mm512_store_si512((__m512i*)data,value);
     }
 
-    FASTOR_INLINE int64_t operator[](FASTOR_INDEX i) const {return reinterpret_cast<const int64_t*>(&value)[i];}
-    FASTOR_INLINE int64_t operator()(FASTOR_INDEX i) const {return reinterpret_cast<const int64_t*>(&value)[i];}
+    FASTOR_INLINE int64_t operator[](FASTOR_INDEX i) const {int64_t vals[Size]; std::memcpy(vals, &value, sizeof(value)); return vals[i];}
+    FASTOR_INLINE int64_t operator()(FASTOR_INDEX i) const {int64_t vals[Size]; std::memcpy(vals, &value, sizeof(value)); return vals[i];}
 
     FASTOR_INLINE void mask_load(const scalar_value_type *a, uint8_t mask, bool Aligned=false) {
 #ifdef FASTOR_HAS_AVX512_MASKS
@@ -74,11 +74,13 @@ struct SIMDVector<int64_t,simd_abi::avx512> {
         int maska[Size];
         mask_to_array(mask,maska);
         value = _mm512_setzero_si512();
+        scalar_value_type vals[Size] = {};
         for (FASTOR_INDEX i=0; i<Size; ++i) {
             if (maska[i] == -1) {
-                ((scalar_value_type*)&value)[Size - i - 1] = a[Size - i - 1];
+                vals[Size - i - 1] = a[Size - i - 1];
             }
         }
+        std::memcpy(&value, vals, sizeof(value));
         unused(Aligned);
 #endif
     }
@@ -92,9 +94,10 @@ struct SIMDVector<int64_t,simd_abi::avx512> {
         // perhaps very inefficient but they never get used
         int maska[Size];
         mask_to_array(mask,maska);
+        scalar_value_type vals[Size]; std::memcpy(vals, &value, sizeof(value));
         for (FASTOR_INDEX i=0; i<Size; ++i) {
             if (maska[i] == -1) {
-                a[Size - i - 1] = ((const scalar_value_type*)&value)[Size - i - 1];
+                a[Size - i - 1] = vals[Size - i - 1];
             }
         }
         unused(Aligned);
@@ -137,27 +140,35 @@ struct SIMDVector<int64_t,simd_abi::avx512> {
 #ifdef FASTOR_AVX512DQ_IMPL
         value = _mm512_mullo_epi64(value,_mm512_set1_epi64(num));
 #else
+        int64_t vals[Size]; std::memcpy(vals, &value, sizeof(value));
         for (FASTOR_INDEX i=0; i<Size; i++) {
-            ((int64_t*)&value)[i] *= num;
+            vals[i] *= num;
         }
+        std::memcpy(&value, vals, sizeof(value));
 #endif
     }
     FASTOR_INLINE void operator*=(__m512i regi) {
 #ifdef FASTOR_AVX512DQ_IMPL
         value = _mm512_mullo_epi64(value,regi);
 #else
+        int64_t vals[Size], rvals[Size];
+        std::memcpy(vals, &value, sizeof(value)); std::memcpy(rvals, &regi, sizeof(regi));
         for (FASTOR_INDEX i=0; i<Size; i++) {
-            ((int64_t*)&value)[i] *= (((const int64_t*)&regi)[i]);
+            vals[i] *= rvals[i];
         }
+        std::memcpy(&value, vals, sizeof(value));
 #endif
     }
     FASTOR_INLINE void operator*=(const SIMDVector<int64_t,simd_abi::avx512> &a) {
 #ifdef FASTOR_AVX512DQ_IMPL
         value = _mm512_mullo_epi64(value,a.value);
 #else
+        int64_t vals[Size], rvals[Size];
+        std::memcpy(vals, &value, sizeof(value)); std::memcpy(rvals, &a.value, sizeof(a.value));
         for (FASTOR_INDEX i=0; i<Size; i++) {
-            ((int64_t*)&value)[i] *= (((const int64_t*)&(a.value))[i]);
+            vals[i] *= rvals[i];
         }
+        std::memcpy(&value, vals, sizeof(value));
 #endif
     }
 
@@ -221,7 +232,7 @@ struct SIMDVector<int64_t,simd_abi::avx512> {
 #ifdef FASTOR_HAS_AVX512_REDUCE_ADD
         return _mm512_reduce_add_epi64(value);
 #else
-        const int64_t *vals = reinterpret_cast<const int64_t*>(&value);
+        int64_t vals[Size]; std::memcpy(vals, &value, sizeof(value));
         int64_t quan = 0;
         for (FASTOR_INDEX i=0; i<Size; ++i)
             quan += vals[i];
@@ -230,7 +241,7 @@ struct SIMDVector<int64_t,simd_abi::avx512> {
     }
 
     FASTOR_INLINE int64_t product() {
-        const int64_t *vals = reinterpret_cast<const int64_t*>(&value);
+        int64_t vals[Size]; std::memcpy(vals, &value, sizeof(value));
         int64_t quan = 1;
         for (FASTOR_INDEX i=0; i<Size; ++i)
             quan *= vals[i];
@@ -245,7 +256,7 @@ struct SIMDVector<int64_t,simd_abi::avx512> {
 };
 
 FASTOR_HINT_INLINE std::ostream& operator<<(std::ostream &os, SIMDVector<int64_t,simd_abi::avx512> a) {
-    const int64_t *value = reinterpret_cast<const int64_t*>(&a.value);
+    int64_t value[sizeof(a.value)/sizeof(int64_t)]; std::memcpy(value, &a.value, sizeof(a.value));
     os << "[" << value[0] <<  " " << value[1] << " " << value[2] << " " << value[3]
        << " " << value[4] <<  " " << value[5] << " " << value[6] << " " << value[7] << "]\n";
     return os;
@@ -294,9 +305,12 @@ FASTOR_INLINE SIMDVector<int64_t,simd_abi::avx512> operator*(const SIMDVector<in
 #ifdef FASTOR_AVX512DQ_IMPL
     out.value = _mm512_mullo_epi64(a.value,b.value);
 #else
+    int64_t av[8], bv[8], ov[8];
+    a.store(av,false); b.store(bv,false);
     for (FASTOR_INDEX i=0; i<out.size(); i++) {
-       ((int64_t*)&out.value)[i] = (((int64_t*)&a.value)[i])*(((int64_t*)&b.value)[i]);
+       ov[i] = av[i]*bv[i];
     }
+    out.load(ov,false);
 #endif
     return out;
 }
@@ -305,9 +319,12 @@ FASTOR_INLINE SIMDVector<int64_t,simd_abi::avx512> operator*(const SIMDVector<in
 #ifdef FASTOR_AVX512DQ_IMPL
     out.value = _mm512_mullo_epi64(a.value,_mm512_set1_epi64(b));
 #else
+    int64_t av[8], ov[8];
+    a.store(av,false);
     for (FASTOR_INDEX i=0; i<out.size(); i++) {
-       ((int64_t*)&out.value)[i] = (((int64_t*)&a.value)[i])*b;
+       ov[i] = av[i]*b;
     }
+    out.load(ov,false);
 #endif
     return out;
 }
@@ -316,9 +333,12 @@ FASTOR_INLINE SIMDVector<int64_t,simd_abi::avx512> operator*(int64_t a, const SI
 #ifdef FASTOR_AVX512DQ_IMPL
     out.value = _mm512_mullo_epi64(_mm512_set1_epi64(a),b.value);
 #else
+    int64_t bv[8], ov[8];
+    b.store(bv,false);
     for (FASTOR_INDEX i=0; i<out.size(); i++) {
-       ((int64_t*)&out.value)[i] = a*(((int64_t*)&b.value)[i]);
+       ov[i] = a*bv[i];
     }
+    out.load(ov,false);
 #endif
     return out;
 }
@@ -372,9 +392,12 @@ FASTOR_INLINE SIMDVector<int64_t,simd_abi::avx512> abs(const SIMDVector<int64_t,
 #ifdef FASTOR_HAS_AVX512_ABS
     out.value = _mm512_abs_epi64(a.value);
 #else
+    int64_t av[8], ov[8];
+    a.store(av,false);
     for (FASTOR_INDEX i=0UL; i<8UL; ++i) {
-       ((int64_t*)&out.value)[i] = std::abs(((int64_t*)&a.value)[i]);
+       ov[i] = std::abs(av[i]);
     }
+    out.load(ov,false);
 #endif
     return out;
 }
@@ -436,8 +459,8 @@ struct SIMDVector<int64_t,simd_abi::avx> {
         _mm256_store_si256((__m256i*)data,value);
     }
 
-    FASTOR_INLINE int64_t operator[](FASTOR_INDEX i) const {return reinterpret_cast<const int64_t*>(&value)[i];}
-    FASTOR_INLINE int64_t operator()(FASTOR_INDEX i) const {return reinterpret_cast<const int64_t*>(&value)[i];}
+    FASTOR_INLINE int64_t operator[](FASTOR_INDEX i) const {int64_t vals[Size]; std::memcpy(vals, &value, sizeof(value)); return vals[i];}
+    FASTOR_INLINE int64_t operator()(FASTOR_INDEX i) const {int64_t vals[Size]; std::memcpy(vals, &value, sizeof(value)); return vals[i];}
 
     FASTOR_INLINE void mask_load(const scalar_value_type *a, uint8_t mask, bool Aligned=false) {
 #ifdef FASTOR_HAS_AVX512_MASKS
@@ -450,11 +473,13 @@ struct SIMDVector<int64_t,simd_abi::avx> {
         int maska[Size];
         mask_to_array(mask,maska);
         value = _mm256_setzero_si256();
+        scalar_value_type vals[Size] = {};
         for (FASTOR_INDEX i=0; i<Size; ++i) {
             if (maska[i] == -1) {
-                ((scalar_value_type*)&value)[Size - i - 1] = a[Size - i - 1];
+                vals[Size - i - 1] = a[Size - i - 1];
             }
         }
+        std::memcpy(&value, vals, sizeof(value));
         unused(Aligned);
 #endif
     }
@@ -468,9 +493,10 @@ struct SIMDVector<int64_t,simd_abi::avx> {
         // perhaps very inefficient but they never get used
         int maska[Size];
         mask_to_array(mask,maska);
+        scalar_value_type vals[Size]; std::memcpy(vals, &value, sizeof(value));
         for (FASTOR_INDEX i=0; i<Size; ++i) {
             if (maska[i] == -1) {
-                a[Size - i - 1] = ((const scalar_value_type*)&value)[Size - i - 1];
+                a[Size - i - 1] = vals[Size - i - 1];
             }
         }
         unused(Aligned);
@@ -571,7 +597,7 @@ struct SIMDVector<int64_t,simd_abi::avx> {
     }
 
     FASTOR_INLINE int64_t sum() {
-        const int64_t *vals = reinterpret_cast<const int64_t*>(&value);
+        int64_t vals[Size]; std::memcpy(vals, &value, sizeof(value));
         int64_t quan = 0;
         for (FASTOR_INDEX i=0; i<Size; ++i)
             quan += vals[i];
@@ -579,7 +605,7 @@ struct SIMDVector<int64_t,simd_abi::avx> {
     }
 
     FASTOR_INLINE int64_t product() {
-        const int64_t *vals = reinterpret_cast<const int64_t*>(&value);
+        int64_t vals[Size]; std::memcpy(vals, &value, sizeof(value));
         int64_t quan = 1;
         for (FASTOR_INDEX i=0; i<Size; ++i)
             quan *= vals[i];
@@ -587,8 +613,8 @@ struct SIMDVector<int64_t,simd_abi::avx> {
     }
 
     FASTOR_INLINE int64_t dot(const SIMDVector<int64_t,simd_abi::avx> &other) {
-        const int64_t *vals0 = reinterpret_cast<const int64_t*>(&value);
-        const int64_t *vals1 = reinterpret_cast<const int64_t*>(&other.value);
+        int64_t vals0[Size]; std::memcpy(vals0, &value, sizeof(value));
+        int64_t vals1[Size]; std::memcpy(vals1, &other.value, sizeof(other.value));
         int64_t quan = 0;
         for (FASTOR_INDEX i=0; i<Size; ++i)
             quan += vals0[i]*vals1[i];
@@ -599,7 +625,7 @@ struct SIMDVector<int64_t,simd_abi::avx> {
 };
 
 FASTOR_HINT_INLINE std::ostream& operator<<(std::ostream &os, SIMDVector<int64_t,simd_abi::avx> a) {
-    const int64_t *value = reinterpret_cast<const int64_t*>(&a.value);
+    int64_t value[sizeof(a.value)/sizeof(int64_t)]; std::memcpy(value, &a.value, sizeof(a.value));
     os << "[" << value[0] <<  " " << value[1] << " " << value[2] << " " << value[3] << "]\n";
     return os;
 }
@@ -761,11 +787,13 @@ struct SIMDVector<int64_t,simd_abi::sse> {
         int maska[Size];
         mask_to_array(mask,maska);
         value = _mm_setzero_si128();
+        scalar_value_type vals[Size] = {};
         for (FASTOR_INDEX i=0; i<Size; ++i) {
             if (maska[i] == -1) {
-                ((scalar_value_type*)&value)[Size - i - 1] = a[Size - i - 1];
+                vals[Size - i - 1] = a[Size - i - 1];
             }
         }
+        std::memcpy(&value, vals, sizeof(value));
         unused(Aligned);
 #endif
     }
@@ -779,17 +807,18 @@ struct SIMDVector<int64_t,simd_abi::sse> {
         // perhaps very inefficient but they never get used
         int maska[Size];
         mask_to_array(mask,maska);
+        scalar_value_type vals[Size]; std::memcpy(vals, &value, sizeof(value));
         for (FASTOR_INDEX i=0; i<Size; ++i) {
             if (maska[i] == -1) {
-                a[Size - i - 1] = ((const scalar_value_type*)&value)[Size - i - 1];
+                a[Size - i - 1] = vals[Size - i - 1];
             }
         }
         unused(Aligned);
 #endif
     }
 
-    FASTOR_INLINE int64_t operator[](FASTOR_INDEX i) const {return reinterpret_cast<const int64_t*>(&value)[i];}
-    FASTOR_INLINE int64_t operator()(FASTOR_INDEX i) const {return reinterpret_cast<const int64_t*>(&value)[i];}
+    FASTOR_INLINE int64_t operator[](FASTOR_INDEX i) const {int64_t vals[Size]; std::memcpy(vals, &value, sizeof(value)); return vals[i];}
+    FASTOR_INLINE int64_t operator()(FASTOR_INDEX i) const {int64_t vals[Size]; std::memcpy(vals, &value, sizeof(value)); return vals[i];}
 
     FASTOR_INLINE void set(int64_t num) {
         value = _mm_set_epi64x(num,num);
@@ -880,14 +909,14 @@ struct SIMDVector<int64_t,simd_abi::sse> {
     }
 
     FASTOR_INLINE int64_t sum() {
-        const int64_t *vals = reinterpret_cast<const int64_t*>(&value);
+        int64_t vals[Size]; std::memcpy(vals, &value, sizeof(value));
         int64_t quan = 0;
         for (FASTOR_INDEX i=0; i<2; ++i)
             quan += vals[i];
         return static_cast<int64_t>(quan);
     }
     FASTOR_INLINE int64_t product() {
-        const int64_t *vals = reinterpret_cast<const int64_t*>(&value);
+        int64_t vals[Size]; std::memcpy(vals, &value, sizeof(value));
         int64_t quan = 1;
         for (FASTOR_INDEX i=0; i<Size; ++i)
             quan *= vals[i];
@@ -895,8 +924,8 @@ struct SIMDVector<int64_t,simd_abi::sse> {
     }
 
     FASTOR_INLINE int64_t dot(const SIMDVector<int64_t,simd_abi::sse> &other) {
-        const int64_t *vals0 = reinterpret_cast<const int64_t*>(&value);
-        const int64_t *vals1 = reinterpret_cast<const int64_t*>(&other.value);
+        int64_t vals0[Size]; std::memcpy(vals0, &value, sizeof(value));
+        int64_t vals1[Size]; std::memcpy(vals1, &other.value, sizeof(other.value));
         int64_t quan = 0;
         for (FASTOR_INDEX i=0; i<2; ++i)
             quan += vals0[i]*vals1[i];
@@ -907,7 +936,7 @@ struct SIMDVector<int64_t,simd_abi::sse> {
 };
 
 FASTOR_HINT_INLINE std::ostream& operator<<(std::ostream &os, SIMDVector<int64_t,simd_abi::sse> a) {
-    const int64_t *value = reinterpret_cast<const int64_t*>(&a.value);
+    int64_t value[sizeof(a.value)/sizeof(int64_t)]; std::memcpy(value, &a.value, sizeof(a.value));
     os << "[" << value[0] <<  " " << value[1] << "]\n";
     return os;
 }
